@@ -1,6 +1,7 @@
 package engines
 
 import (
+	"errors"
 	"crypto/sha256"
 	"encoding/hex"
 	"encoding/json"
@@ -45,12 +46,14 @@ var curLoader *memLoader
 func init() {
 	// same strategy as the default loader (swag.LoadFromFileOrHTTP): file paths and file:// URIs go to the
 	// local reader, which is the bundle held in memory instead of os.ReadFile; there is no network.
-	memRead := func(p string) ([]byte, error) {
+	serve := func(p string, remote bool) ([]byte, error) {
 		l := curLoader
 		if l == nil {
 			return nil, fmt.Errorf("no bundle is loaded (asked for %q)", p)
 		}
-		p = path.Clean(p)
+		if !remote {
+			p = path.Clean(p)
+		}
 		l.loads = append(l.loads, p)
 		if l.failAt > 0 && len(l.loads) == l.failAt {
 			l.failed = true
@@ -68,9 +71,18 @@ func init() {
 		}
 		return []byte(t), nil
 	}
-	noNet := func(p string) ([]byte, error) { return nil, fmt.Errorf("GET %s: no network in this sandbox", p) }
+	memRead := func(p string) ([]byte, error) { return serve(p, false) }
+	// http(s) documents are served from the same in-memory bundle, keyed by their URL: there is no network,
+	// an unknown URL fails like a 404 would
+	memGet := func(p string) ([]byte, error) {
+		b, err := serve(p, true)
+		if err != nil && errors.Is(err, os.ErrNotExist) {
+			return nil, fmt.Errorf("could not access document at %q [404 Not Found]", p)
+		}
+		return b, err
+	}
 	spec.PathLoader = func(p string) (json.RawMessage, error) {
-		b, err := swag.LoadStrategy(p, memRead, noNet)(p)
+		b, err := swag.LoadStrategy(p, memRead, memGet)(p)
 		if err != nil {
 			return nil, err
 		}
@@ -81,6 +93,10 @@ func init() {
 func absFiles(c *runner.Case) map[string]string {
 	out := map[string]string{}
 	for f, t := range c.Files {
+		if strings.Contains(f, "://") { // a document hosted over http: keyed by its URL
+			out[f] = t
+			continue
+		}
 		out[path.Join(vroot, f)] = t
 	}
 	return out
